@@ -472,4 +472,243 @@ theorem processParams_params (s : Sig) (h : ((s.pk ++ s.ko).map P.name).Nodup) :
   rw [ppScan_po, ppScan_pk, hvp, ppScan_ko, hvk]
   cases vp <;> cases vk <;> simp [hko] <;> simpa using hko
 
+/-! ## `calculate_index` against CPython's binding -/
+
+/-- the triple `_iter_arguments` yields for a complete earlier argument / for the current one -/
+def CArg.triple : CArg → Triple
+  | .pos => ⟨0, some [], false⟩
+  | .kw n => ⟨0, some n, true⟩
+
+theorem indexLoop_append (k : Bool) (pc : Nat) (u : List Str) (c : Triple) (xs ys : List PName) (i : Nat) :
+    indexLoop k pc u c (xs ++ ys) i =
+      match indexLoop k pc u c xs i with
+      | some r => some r
+      | none => indexLoop k pc u c ys (i + xs.length) := by
+  induction xs generalizing i with
+  | nil => simp [indexLoop]
+  | cons x xs ih =>
+    have e : i + 1 + xs.length = i + (xs.length + 1) := by omega
+    simp only [List.cons_append, indexLoop, List.length_cons]
+    split
+    · rfl
+    · split
+      · rfl
+      · split
+        · split
+          · rfl
+          · split
+            · rfl
+            · rw [ih, e]
+        · rw [ih, e]
+
+/-- keyword being typed: parameters whose name differs (and which are not `**kwargs`) are skipped -/
+theorem il_kw_nomatch (pc : Nat) (u : List Str) (n : Str) (k : Kind) (hk : k ≠ .varKw)
+    (seg : List P) (h : ∀ p ∈ seg, p.name ≠ n) (i : Nat) :
+    indexLoop true pc u ⟨0, some n, true⟩ (seg.map (P.pname k)) i = none := by
+  induction seg generalizing i with
+  | nil => rfl
+  | cons p seg ih =>
+    have hp : (p.name == n) = false := by simpa using h p (by simp)
+    simp only [List.map_cons, indexLoop, P.pname, keyMatches, hp]
+    simp [hk, ih (fun q hq => h q (by simp [hq]))]
+
+theorem optIdx_cons_eq (n : Str) (l : List Str) : optIdx (n :: l) n = some 0 := by
+  simp [optIdx, List.idxOf_cons]
+
+theorem optIdx_cons_ne (m n : Str) (l : List Str) (h : m ≠ n) :
+    optIdx (m :: l) n = (optIdx l n).map (· + 1) := by
+  have hb : (m == n) = false := by simpa using h
+  simp only [optIdx, List.idxOf_cons, hb, cond_false, List.length_cons]
+  by_cases hl : List.idxOf n l < l.length <;> simp [hl]
+
+/-- keyword being typed, section of keyword-capable parameters with distinct names: the one
+with that name (when it may still be given by keyword) -/
+theorem il_kw_seg (pc : Nat) (u : List Str) (n : Str) (hu : u.contains n = false) (k : Kind)
+    (hk : k = .posOrKw ∨ k = .kwOnly) (seg : List P) (hnd : (seg.map P.name).Nodup) (i : Nat) :
+    indexLoop true pc u ⟨0, some n, true⟩ (seg.map (P.pname k)) i =
+      match optIdx (seg.map P.name) n with
+      | some j => if k = .kwOnly ∨ pc ≤ i + j then some (i + j) else none
+      | none => none := by
+  induction seg generalizing i with
+  | nil => simp [optIdx, indexLoop]
+  | cons p seg ih =>
+    simp only [List.map_cons, List.nodup_cons, List.mem_map, not_exists, not_and] at hnd
+    by_cases hp : p.name = n
+    · subst hp
+      simp only [List.map_cons]
+      rw [optIdx_cons_eq]
+      have hrest := il_kw_nomatch pc u p.name k (by rcases hk with h | h <;> simp [h]) seg
+        (fun q hq e => hnd.1 q hq e) (i + 1)
+      simp only [indexLoop, P.pname, keyMatches, hu, Nat.add_zero]
+      rcases hk with h | h <;> subst h <;> by_cases hle : pc ≤ i <;> simp [hle, hrest]
+    · simp only [List.map_cons]
+      rw [optIdx_cons_ne _ _ _ hp]
+      have hb : (p.name == n) = false := by simpa using hp
+      have hkv : k ≠ .varKw := by rcases hk with h | h <;> simp [h]
+      have := ih hnd.2 (i + 1)
+      have step : indexLoop true pc u ⟨0, some n, true⟩ (P.pname k p :: seg.map (P.pname k)) i =
+          indexLoop true pc u ⟨0, some n, true⟩ (seg.map (P.pname k)) (i + 1) := by
+        simp [indexLoop, P.pname, keyMatches, hb, hkv]
+      rw [step, this]
+      cases optIdx (seg.map P.name) n with
+      | none => rfl
+      | some j =>
+        have e : i + 1 + j = i + (j + 1) := by omega
+        simp [e]
+
+/-- non-name positional argument being typed, section of positional parameters -/
+theorem il_pos_seg (pc : Nat) (k : Kind) (hk : k = .posOnly ∨ k = .posOrKw) (seg : List P) (i : Nat)
+    (hi : i ≤ pc) :
+    indexLoop false pc [] ⟨0, some [], false⟩ (seg.map (P.pname k)) i =
+      if pc < i + seg.length then some pc else none := by
+  induction seg generalizing i with
+  | nil => simp [indexLoop]; omega
+  | cons p seg ih =>
+    by_cases he : i = pc
+    · subst he
+      rcases hk with h | h <;> subst h <;> simp [indexLoop, P.pname]
+    · have hlt : i < pc := by omega
+      have hne : (i == pc) = false := by simpa using he
+      have hnle : ¬ pc ≤ i := by omega
+      have := ih (i + 1) (by omega)
+      have e : i + 1 + seg.length = i + (seg.length + 1) := by omega
+      rcases hk with h | h <;> subst h <;>
+        simp [indexLoop, P.pname, hne, hnle, keyMatches, this, e]
+
+theorem il_kw_po (pc : Nat) (u : List Str) (n : Str) (seg : List P) (i : Nat) :
+    indexLoop true pc u ⟨0, some n, true⟩ (seg.map (P.pname .posOnly)) i = none := by
+  induction seg generalizing i with
+  | nil => rfl
+  | cons p seg ih => simp [indexLoop, P.pname, ih]
+
+theorem il_kw_vp (pc : Nat) (u : List Str) (n : Str) (vp : Option P) (i : Nat) :
+    indexLoop true pc u ⟨0, some n, true⟩ (vp.map (P.pname .varPos)).toList i = none := by
+  cases vp <;> simp [indexLoop, P.pname]
+
+theorem il_kw_vk (pc : Nat) (u : List Str) (n : Str) (vk : Option P) (i : Nat) :
+    indexLoop true pc u ⟨0, some n, true⟩ (vk.map (P.pname .varKw)).toList i =
+      if vk.isSome then some i else none := by
+  cases vk <;> simp [indexLoop, P.pname, keyMatches]
+
+theorem optIdx_none_iff (l : List Str) (n : Str) : optIdx l n = none ↔ n ∉ l := by
+  simp only [optIdx]
+  constructor
+  · intro h hm
+    have := List.idxOf_lt_length_iff.mpr hm
+    simp [this] at h
+  · intro h
+    have : ¬ List.idxOf n l < l.length := fun hlt => h (List.idxOf_lt_length_iff.mp hlt)
+    simp [this]
+
+theorem optIdx_some_mem (l : List Str) (n : Str) (j : Nat) (h : optIdx l n = some j) : n ∈ l ∧ j < l.length := by
+  simp only [optIdx] at h
+  by_cases hlt : List.idxOf n l < l.length
+  · simp only [hlt, if_true, Option.some.injEq] at h
+    exact ⟨List.idxOf_lt_length_iff.mp hlt, h ▸ hlt⟩
+  · simp [hlt] at h
+
+theorem scan_kws (kws : List Str) (c : Triple) (hc : c.star = 0) :
+    scanArgs ((kws.map fun n => (⟨0, some n, true⟩ : Triple)) ++ [c]) = (!kws.isEmpty || c.eq, 0, kws) := by
+  induction kws with
+  | nil => simp [scanArgs, hc]
+  | cons n kws ih =>
+    simp only [List.map_cons, List.cons_append, scanArgs, ih]
+    simp
+
+theorem scan_wf (npos : Nat) (kws : List Str) (c : Triple) (hc : c.star = 0) :
+    scanArgs (List.replicate npos (⟨0, some [], false⟩ : Triple) ++
+      ((kws.map fun n => (⟨0, some n, true⟩ : Triple)) ++ [c])) = (!kws.isEmpty || c.eq, npos, kws) := by
+  induction npos with
+  | zero => simpa using scan_kws kws c hc
+  | succ m ih =>
+    simp only [List.replicate_succ, List.cons_append, scanArgs, ih]
+    simp
+
+theorem filter_isPos (npos : Nat) (kws : List Str) :
+    ((List.replicate npos CArg.pos ++ kws.map CArg.kw).filter CArg.isPos).length = npos := by
+  have h1 : (List.replicate npos CArg.pos).filter CArg.isPos = List.replicate npos CArg.pos := by
+    apply List.filter_eq_self.mpr
+    intro a ha
+    rw [List.eq_of_mem_replicate ha]; rfl
+  have h2 : (kws.map CArg.kw).filter CArg.isPos = [] := by
+    apply List.filter_eq_nil_iff.mpr
+    intro a ha
+    obtain ⟨n, _, rfl⟩ := List.mem_map.mp ha
+    simp [CArg.isPos]
+  simp [List.filter_append, h1, h2]
+
+/-- a `name=` argument after `npos` positional and the distinct keywords `kws` -/
+theorem calcIndex_kw (s : Sig) (npos : Nat) (kws : List Str) (n : Str)
+    (hnd : ((s.pk ++ s.ko).map P.name).Nodup) (hn : n ∉ kws)
+    (h2 : ∀ j, optIdx (s.pk.map P.name) n = some j → s.po.length + j < npos → s.vk = none) :
+    calculateIndex s.params (List.replicate npos (CArg.triple .pos) ++
+        (kws.map (fun k => CArg.triple (.kw k)) ++ [CArg.triple (.kw n)])) =
+      pyBind s (List.replicate npos .pos ++ kws.map .kw) (.kw n) := by
+  obtain ⟨po, pk, vp, ko, vk⟩ := s
+  simp only [List.map_append, List.nodup_append, List.mem_map] at hnd
+  have hu : kws.contains n = false := by simpa using hn
+  unfold calculateIndex pyBind
+  rw [filter_isPos]
+  simp only [CArg.triple]
+  rw [← List.append_assoc, List.getLast?_concat, List.append_assoc, scan_wf npos kws _ rfl]
+  simp only [Sig.params, Bool.or_true]
+  rw [indexLoop_append, indexLoop_append, indexLoop_append, indexLoop_append]
+  rw [il_kw_po, il_kw_seg npos kws n hu .posOrKw (Or.inl rfl) pk hnd.1]
+  simp only [Nat.zero_add, List.length_append, List.length_map]
+  rw [il_kw_vp, il_kw_seg npos kws n hu .kwOnly (Or.inr rfl) ko hnd.2.1, il_kw_vk]
+  cases hpk : optIdx (pk.map P.name) n with
+  | some j =>
+    have hmem := (optIdx_some_mem _ _ _ hpk).1
+    have hko : optIdx (ko.map P.name) n = none := by
+      rw [optIdx_none_iff]
+      intro hm
+      obtain ⟨a, ha, ea⟩ := List.mem_map.mp hmem
+      obtain ⟨b, hb, eb⟩ := List.mem_map.mp hm
+      exact hnd.2.2 _ ⟨a, ha, rfl⟩ _ ⟨b, hb, rfl⟩ (ea.trans eb.symm)
+    by_cases hlt : po.length + j < npos
+    · have hvk := h2 j hpk hlt
+      simp only at hvk
+      subst hvk
+      have : ¬ npos ≤ po.length + j := by omega
+      simp [hko, hlt, this]
+    · have : npos ≤ po.length + j := by omega
+      simp [hlt, this]
+  | none =>
+    cases hko : optIdx (ko.map P.name) n with
+    | some j =>
+      cases vp <;> simp <;> omega
+    | none =>
+      cases vp <;> cases vk <;> simp <;> omega
+
+/-- a non-name positional argument after `npos` positional ones -/
+theorem calcIndex_pos (s : Sig) (npos : Nat)
+    (h1 : npos < s.po.length + s.pk.length ∨ s.vp.isSome ∨ (s.ko = [] ∧ s.vk = none)) :
+    calculateIndex s.params (List.replicate npos (CArg.triple .pos) ++
+        (([] : List Str).map (fun k => CArg.triple (.kw k)) ++ [CArg.triple .pos])) =
+      pyBind s (List.replicate npos .pos ++ ([] : List Str).map .kw) .pos := by
+  obtain ⟨po, pk, vp, ko, vk⟩ := s
+  unfold calculateIndex pyBind
+  rw [filter_isPos]
+  simp only [CArg.triple]
+  rw [← List.append_assoc, List.getLast?_concat, List.append_assoc, scan_wf npos [] _ rfl]
+  simp only [Sig.params, List.isEmpty_nil, Bool.not_true, Bool.or_self]
+  rw [indexLoop_append, indexLoop_append, indexLoop_append, indexLoop_append]
+  rw [il_pos_seg npos .posOnly (Or.inl rfl) po 0 (by omega)]
+  simp only [Nat.zero_add, List.length_append, List.length_map]
+  by_cases hpo : npos < po.length
+  · have : npos < po.length + pk.length := by omega
+    simp [hpo, this]
+  · simp only [hpo, if_false]
+    rw [il_pos_seg npos .posOrKw (Or.inr rfl) pk po.length (by omega)]
+    by_cases hpk : npos < po.length + pk.length
+    · simp [hpk]
+    · simp only [hpk, if_false]
+      simp only at h1
+      rcases h1 with h | h | ⟨rfl, rfl⟩
+      · exact absurd h hpk
+      · cases vp with
+        | none => simp at h
+        | some v => simp [indexLoop, P.pname]
+      · cases vp <;> simp [indexLoop, P.pname]
+
 end JediModel.Call
